@@ -22,23 +22,6 @@ model's outcome for every peer: `peerVerdict_model`) plus "the session lists and
 namespace Negotiate
 open Proto Generated.Negotiate
 
-/-- Go's `httpguts.ValidHeaderFieldValue`: the request can be sent at all. -/
-def headerValid (s : String) : Bool :=
-  s.toUTF8.toList.all (fun b => (b ≥ 0x20 && b != 0x7f) || b == 0x09)
-
-/-- `headerValid` plus "unchanged by header trimming" (the SDK server compares the header with the
-body's `_meta` version; a foreign peer is not assumed to). -/
-def headerSafe (s : String) : Bool :=
-  let bs := s.toUTF8.toList
-  headerValid s &&
-    (match bs.head? with | some b => b != 0x20 && b != 0x09 | none => true) &&
-    (match bs.getLast? with | some b => b != 0x20 && b != 0x09 | none => true)
-
-def wireFor (k : TKind) : String → Bool :=
-  match k with
-  | .mem | .pipe | .sse => fun _ => true   -- the SSE client does not send Mcp-Protocol-Version
-  | _ => headerSafe
-
 def parseKind : String → Option TKind
   | "mem" => some .mem
   | "pipe" => some .pipe
